@@ -422,10 +422,11 @@ static int run_c03_c04(Ctx & cx, const Args & a)
   for (auto & c : grid) {
     size_t my = idx++;
     uint64_t h = mix(seed, my * 2654435761ULL + (is04 ? 4 : 3));
-    bool take = thorough ? true : ((c.level == 0 && h % 2 == 0) || h % 4 == 0 || c.mode > 20);
-    if (!take) continue;
+    // every accepted (isotope, level, mode) cell is visited in both tiers (a sampled grid let a change confined to one daughter-level cascade slip
+    // through 3 times out of 4); the cells with the sharpest oracle for a cascade - an excited level in a neutrinoless mode, where the visible
+    // energy must EQUAL Q - get four times the events
     if (!mine()) continue;
-    run_config(cx, c, seed, nev, is04, "none");
+    run_config(cx, c, seed, (c.level >= 1 && is_0nu(c.mode) && !is04) ? 4 * nev : nev, is04, "none");
     if (window_mode(c.mode) && (thorough || h % 2 == 0)) {
       auto it = REF_DBD.find(c.name);
       double e0 = it->second.Q - it->second.levelE[c.level] / 1000.0; if (it->second.Z < 0) e0 -= 4 * EMASS;
